@@ -64,7 +64,19 @@ class Frame:
     def __init__(self, key, mod, cls, node, contract, closure=None):
         self.key, self.mod, self.cls, self.node, self.contract = key, mod, cls, node, contract
         self.closure = closure
-        self.loops = {id(n): k for k, n in enumerate(front.loops_of(node))} if node is not None else {}
+        self.loops = _loops_cached(node) if node is not None else {}
+
+
+_LOOPS = {}
+_SPEC_EXPR = {}
+
+
+def _loops_cached(node):
+    r = _LOOPS.get(id(node))
+    if r is None or r[0] is not node:
+        r = (node, {id(n): k for k, n in enumerate(front.loops_of(node))})
+        _LOOPS[id(node)] = r
+    return r[1]
 
 
 class Ctx:
@@ -133,6 +145,9 @@ class Exec:
     def oblig(self, kind, label, st, goal, line=None, expect="unsat", info=None):
         if self.spec_depth:
             return
+        sel = getattr(self.ctx, "clause_sel", None)
+        if sel and sel[0] == "only" and kind != "post":
+            return       # second (nonlinear) pass re-proves selected postconditions only
         if goal is True:
             return
         if goal is False:
@@ -158,7 +173,8 @@ class Exec:
         import time
         s = z3.Solver()
         s.set("timeout", ms)
-        s.add(*st.pc)
+        # quantifier-free part of the path condition only (weaker, so `unsat` is still conclusive)
+        s.add(*[f for f in st.pc if not has_quant(f)])
         if extra is not None:
             s.add(extra)
         t = time.time()
@@ -178,6 +194,8 @@ class Exec:
         return n
 
     in_callee_result = False
+    assume_mode = 0
+    map_depth = 0      # > 0 while evaluating the element closure of a row/element map (callees are inlined there)
 
     def fresh_value(self, t, hint, st, cols_present=None):
         ctx = self.ctx
@@ -394,6 +412,8 @@ class Exec:
             return Func("builtin", name)
         if name in dsl.SPECS:
             return Func("spec", name)
+        if name in dsl.CONSTS:
+            return self.lift(dsl.CONSTS[name])
         raise Unsupported("unresolved name %s" % name)
 
     def const_value(self, mod, name):
@@ -778,6 +798,9 @@ class Exec:
     def call_closure(self, f, args, kwargs, st):
         node = f.target
         env = self.bind_args(node, args, kwargs, st)
+        if isinstance(f.env, _LiveEnv) and f.env["__frame__"] is self.fr:
+            # called from its defining function: free variables see that function's current bindings
+            f.env._env = st.env
         parent_frame = f.env.get("__frame__") if f.env else self.fr
         fr = Frame(parent_frame.key, parent_frame.mod, parent_frame.cls, node if isinstance(node, ast.FunctionDef) else None,
                    parent_frame.contract, closure=f.env)
@@ -812,8 +835,8 @@ class Exec:
         decos = [d for d in decos if d not in ("staticmethod", "classmethod", "property")
                  and not d.endswith(".setter")]
         is_gen = any(isinstance(n, (ast.Yield, ast.YieldFrom)) for n in ast.walk(fnode))
-        if c is not None and not c.inline and not (self.ctx.bounded is not None and not is_gen and not c.trusted
-                                                   and not fnode.decorator_list):
+        if c is not None and not c.inline and not (self.map_depth and not is_gen and not c.trusted and not c.loops) \
+                and not (self.ctx.bounded is not None and not is_gen and not c.trusted and not fnode.decorator_list):
             return self.apply_contract(c, fnode, args, kwargs, st, node)
         if decos:
             raise Unsupported("inlining decorated function %s (%s) needs a contract" % (key, decos))
@@ -864,6 +887,8 @@ class Exec:
         if not any(is_z3(v) for v in vals):
             return None
         zs = [to_z3(v) for v in vals]
+        if any(z.sort() == S for z in zs):
+            return None   # string arguments may be compared with name atoms: keep the body visible
         key = (name, tuple(str(z.sort()) for z in zs), self.ctx.nl)
         defs = self.ctx.spec_defs
         if key not in defs:
@@ -881,6 +906,9 @@ class Exec:
                 defs[key] = False
                 return None
             body = to_z3(body)
+            if body.sort() == S:
+                defs[key] = False      # string-valued spec functions stay inlined (name-atom comparisons)
+                return None
             f = z3.Function("%s!%s%s" % (name, "_".join(k[:1] for k in key[1]), "_nl" if self.ctx.nl else ""), *([z.sort() for z in zs] + [body.sort()]))
             ax = z3.ForAll(params, f(*params) == body, patterns=[f(*params)])
             defs[key] = (f, ax)
@@ -948,16 +976,35 @@ class Exec:
         else:
             res = self.fresh_result(rt, env, st)
         spec_env["result"] = res
-        for lab, ens in c.ensures:
-            f = self.spec_formula(ens, spec_env, st, old_st=pre_st)
-            st.assume(_b(f))
+        self.assume_mode += 1      # use(...) hints of the callee's clauses are dropped (they are valid formulas)
+        try:
+            for lab, ens in c.ensures:
+                f = self.spec_formula(ens, spec_env, st, old_st=pre_st)
+                st.assume(_b(f))
+        finally:
+            self.assume_mode -= 1
         outs.append((st, res))
         return outs
 
     def fresh_result(self, rt, env, st):
         if isinstance(rt, dsl.Opt):
             raise Unsupported("Opt result type in a callee contract")
-        return self.fresh_value(rt, "res", st)
+        r = self.fresh_value(rt, "res", st)
+        like = getattr(rt, "like", None)
+        if like is not None:
+            tok, n = self.index_of(env.get(like), st)
+            v = st.get(r)
+            st.put(r, v.with_(idx=tok, n=n))
+        return r
+
+    def index_of(self, v, st):
+        """(index token, length) of a Series / DataFrame / array object value."""
+        v = st.get(v)
+        if isinstance(v, Obj):
+            v = st.get(v.f.get("data"))
+        if isinstance(v, (Vec, Tab)) and v.idx is not None:
+            return v.idx, v.n
+        raise Unsupported("`like` parameter has no index")
 
     def havoc_like(self, v, hint, st, t=None):
         if t is not None:
@@ -1001,8 +1048,13 @@ class Exec:
 
     # ------------------------------------------------------------------ spec expressions
     def spec_expr(self, text):
+        hit = _SPEC_EXPR.get(text)
+        if hit is not None:
+            return hit
         try:
-            return ast.parse(text.strip(), mode="eval").body
+            r = ast.parse(text.strip(), mode="eval").body
+            _SPEC_EXPR[text] = r
+            return r
         except SyntaxError as exc:
             raise SpecError("bad spec expression %r: %s" % (text, exc))
 
@@ -1157,6 +1209,10 @@ class Exec:
         out = []
         t = n.target
         load = _as_load(t)
+        if isinstance(t, ast.Subscript) and not isinstance(t.slice, (ast.Slice, ast.Tuple, ast.Constant)):
+            r = self.lib.aug_masked(self, st, n)
+            if r is not None:
+                return r
         for s, (cur, v) in self.evs([load, n.value], st):
             if s.ctl:
                 out.append(s)
@@ -1515,6 +1571,30 @@ class Exec:
         return self.cut_loop(n, k, spec, st)
 
 
+_HQ = {}
+
+
+def has_quant(f):
+    if not is_z3(f):
+        return False
+    i = f.get_id()
+    r = _HQ.get(i)
+    if r is not None:
+        return r[1]
+    todo, seen, res = [f], set(), False
+    while todo:
+        t = todo.pop()
+        if t.get_id() in seen:
+            continue
+        seen.add(t.get_id())
+        if z3.is_quantifier(t):
+            res = True
+            break
+        todo += t.children()
+    _HQ[i] = (f, res)
+    return res
+
+
 def skolemize(goal):
     """Top-level universal quantifiers of a goal become fresh constants; antecedents become
     hypotheses.  (hyps |- forall k. A(k) => G(k))  iff  (hyps, A(k0) |- G(k0)) for fresh k0."""
@@ -1539,17 +1619,17 @@ class _LiveEnv(dict):
 
     def __init__(self, st, frame):
         dict.__init__(self)
-        self._st = st
+        self._env = st.env        # the dict object (assignments mutate it in place)
         self["__parent__"] = frame.closure
         self["__frame__"] = frame
 
     def __contains__(self, k):
-        return dict.__contains__(self, k) or k in self._st.env
+        return dict.__contains__(self, k) or k in self._env
 
     def __getitem__(self, k):
         if dict.__contains__(self, k):
             return dict.__getitem__(self, k)
-        return self._st.env[k]
+        return self._env[k]
 
     def get(self, k, d=None):
         return self[k] if k in self else d
